@@ -231,12 +231,8 @@ func programCase(c *driver.Ctx, rl *raceLog, pi int, compiled bool, callsPer int
 		}
 		scripts[g] = s
 	}
+	// concurrent run first (see worldCase), solo reference afterwards on its own program instance
 	t0 := time.Now()
-	want := make([]listResult, nGoroutines)
-	soloShared := mkShared()
-	for g := range scripts {
-		runScript(soloProg, scripts[g], soloShared, fmt.Sprintf("solo%d", g), t0, &want[g])
-	}
 	got := make([]listResult, nGoroutines)
 	shared := mkShared()
 	var ready, done sync.WaitGroup
@@ -254,6 +250,12 @@ func programCase(c *driver.Ctx, rl *raceLog, pi int, compiled bool, callsPer int
 	ready.Wait()
 	close(start)
 	done.Wait()
+
+	want := make([]listResult, nGoroutines)
+	soloShared := mkShared()
+	for g := range scripts {
+		runScript(soloProg, scripts[g], soloShared, fmt.Sprintf("solo%d", g), t0, &want[g])
+	}
 
 	c.Count("program_cases_"+variant, 1)
 	for g := range scripts {
